@@ -16,7 +16,7 @@ import numpy as np
 
 from . import tlc
 from .core import Ctx, MachineryError
-from .store_replay import POINT_FIELDS, _aeic, ident, make_payload, pmap
+from .store_replay import POINT_FIELDS, _aeic, _idr, cid, ident, make_payload, pmap
 
 _assoc_registered = False
 
@@ -371,7 +371,7 @@ def check_merged(out: Path, case, assoc_out=None):
                 for j in range(shape['n']):
                     fid = flight_id(k, j, shape['n'])
                     try:
-                        g = ts.get_flight(fid)
+                        g = ts.get_flight(cid(fid))
                         why = 'returned None' if g is None else check_item(g, k, j, shape, assoc_out is not None)
                     except Exception as e:
                         why = f'raised {type(e).__name__}: {e}'
@@ -380,7 +380,7 @@ def check_merged(out: Path, case, assoc_out=None):
                         for prop in ('C08', 'C09'):
                             devs.append((prop, 'merged-getflight', f'merged get_flight({fid}) should be item {j} of input {k}: {why}'))
             try:
-                if ts.get_flight(5) is not None:
+                if ts.get_flight(cid(5)) is not None:
                     for prop in ('C08', 'C09'):
                         devs.append((prop, 'merged-getflight-absent', 'merged get_flight(5) returned a trajectory for an identifier never added'))
             except Exception as e:
@@ -406,6 +406,9 @@ def run_case(case):
     warnings.simplefilter('ignore')
     d = Path(tempfile.mkdtemp(prefix='c09-'))
     devs = []
+    # MergeGen.tla / StoreGen.tla IdRenderings: every second case renders its identifiers as 19-digit composite keys
+    # (beyond 32 bits, not representable as float64) - the merged id table is keyed by the exact 64-bit value
+    _idr['wide'], _idr['zero'] = (len(case['ins']) + case['fault'] + sum(x['n'] for x in case['ins'])) % 2 == 1, False
     try:
         ins = case['ins']
         paths, apaths = make_inputs(d, ins, case['assoc'], form=case['form'])
